@@ -19,7 +19,9 @@ def _names(k, district):
 
 
 def _job_calls_ok(arg):
-    """Replay a batch of non-error decision-table rows in ONE injected model (every row has its own contests)."""
+    """Replay a batch of non-error decision-table rows in ONE injected model (every row has its own contests).  Returns
+    one 'client' record for Trace_Bootstrap (the property's clauses are decided there) and the number of rows that
+    differ from the specification's exact table (advisory)."""
     rows, district = arg
     from harness import calls
 
@@ -38,35 +40,42 @@ def _job_calls_ok(arg):
     bad = []
     try:
         df, out, model = calls.run_top_level(contests, preds, draws, alphas=ALPHAS, lhs=lhs, rhs=rhs, stop=stop, district=district)
+        # the same contests without any list: "neither called nor stopped => left unchanged"
+        df0, out0, _ = calls.run_top_level(contests, preds, draws, alphas=ALPHAS, district=district)
     except Exception as e:  # noqa: BLE001
-        return [{"clause": "raised_on_valid_lists", "exc": type(e).__name__, "msg": str(e)[:300], "tb": traceback.format_exc()[-1200:], "district": district}]
+        return {"bad": [{"clause": "raised_on_valid_lists", "exc": type(e).__name__, "msg": str(e)[:300], "tb": traceback.format_exc()[-1200:], "district": district}], "records": [], "drift": 0}
     key_cols = ["postal_code", "district"] if district else ["postal_code"]
     got_names = ["_".join(str(x) for x in t) for t in df[key_cols].itertuples(index=False)]
     pos = {n: i for i, n in enumerate(got_names)}
+    pos0 = {"_".join(str(x) for x in t): i for i, t in enumerate(df0[key_cols].itertuples(index=False))}
     rowmap = dict(rows)
+    groups, drift = [], 0
     for (k, c), name in zip(index, contests):
         row = rowmap[k]
-        if name not in pos:
+        if name not in pos or name not in pos0:
             bad.append({"clause": "contest_missing", "row": row})
             continue
-        i = pos[name]
+        i, i0 = pos[name], pos0[name]
+        same = float(df["pred_margin"].iloc[i]).hex() == float(df0["pred_margin"].iloc[i0]).hex() and all(
+            float(out[a][j][i]).hex() == float(out0[a][j][i0]).hex() for a in ALPHAS for j in (0, 1)
+        )
+        groups.append(
+            {
+                "table": "top", "name": name, "top": True,
+                "pred": calls.sgn_scaled(df["pred_margin"].iloc[i], 1e6),
+                "lower": [calls.sgn_scaled(out[a][0][i], 1e6) for a in ALPHAS],
+                "upper": [calls.sgn_scaled(out[a][1][i], 1e6) for a in ALPHAS],
+                "turnout": calls.sgn_scaled(df["pred_turnout"].iloc[i], 1000),
+                "same": bool(same),
+            }
+        )
+        # drift against the specification's exact decision table (advisory: the property states inequalities)
         exp = (row["pred"][c], row["lower"][c], row["upper"][c])
         p = calls.exact_milli(df["pred_margin"].iloc[i])
-        for a in ALPHAS:
-            lo, hi = calls.exact_milli(out[a][0][i]), calls.exact_milli(out[a][1][i])
-            if (p, lo, hi) != exp:
-                bad.append(
-                    {
-                        "clause": "decision_table_row",
-                        "alpha": a,
-                        "district": district,
-                        "contest": c,
-                        "expected": {"pred": exp[0], "lower": exp[1], "upper": exp[2]},
-                        "observed": {"pred": df["pred_margin"].iloc[i], "lower": out[a][0][i], "upper": out[a][1][i]},
-                        "row": row,
-                    }
-                )
-    return bad
+        if any((p, calls.exact_milli(out[a][0][i]), calls.exact_milli(out[a][1][i])) != exp for a in ALPHAS):
+            drift += 1
+    rec = {"kind": "client", "lhs": lhs, "rhs": rhs, "stop": stop, "alphas": list(ALPHAS), "district": district, "B": 3, "lambda": 0, "groups": groups, "units": []}
+    return {"bad": bad, "records": [rec], "drift": drift}
 
 
 def _job_calls_err(arg):
@@ -140,10 +149,17 @@ def c07(tier, seed):
             run.witness("contradictory_lists")
     if any("QQ" in (r["sc"]["lhs"] + r["sc"]["rhs"] + r["sc"]["stop"]) for r in rows2):
         run.witness("unknown_contest_named")
-    for bads, job in zip(common.pool().map(_job_calls_ok, jobs_ok, chunksize=1), jobs_ok):
+    table_records = []
+    for res, job in zip(common.pool().map(_job_calls_ok, jobs_ok, chunksize=1), jobs_ok):
         run.cov["scenarios_replayed_into_impl"] += len(job[0])
-        for b in bads:
+        for b in res["bad"]:
             run.violation(b["clause"], {k: b[k] for k in ("clause", "district", "alpha", "exc") if k in b}, b)
+        table_records.extend(res["records"])
+        if res["drift"]:
+            adv = run.cov.setdefault("advisory_drift", {})
+            adv["decision_table_row_differs_from_model"] = adv.get("decision_table_row_differs_from_model", 0) + res["drift"]
+    # the C07 clauses are decided by the trace specification on what the real functions returned for every row
+    _validate_bootstrap(run, table_records, "Trace_Bootstrap_C07.cfg")
     for bads, job in zip(common.pool().map(_job_calls_err, jobs_err, chunksize=1), jobs_err):
         run.cov["scenarios_replayed_into_impl"] += len(job[0])
         for b in bads:
